@@ -12,8 +12,8 @@ VERIF = scratch.VERIF
 _built = {}
 
 
-def build(root, profile="dev"):
-    key = (root, profile)
+def build(root, profile="dev", gen_src=None):
+    key = (root, profile, hash(gen_src))
     if key in _built:
         return _built[key]
     work = os.path.join(root, "replay")
@@ -25,6 +25,10 @@ def build(root, profile="dev"):
     tm = open(os.path.join(VERIF, "replay_crate", "Cargo.toml.tmpl")).read().replace("@REPO@", repo)
     open(os.path.join(crate, "Cargo.toml"), "w").write(tm)
     shutil.copy(os.path.join(VERIF, "replay_crate", "src", "main.rs"), os.path.join(crate, "src", "main.rs"))
+    if gen_src is None:
+        shutil.copy(os.path.join(VERIF, "replay_crate", "src", "gen.rs"), os.path.join(crate, "src", "gen.rs"))
+    else:
+        open(os.path.join(crate, "src", "gen.rs"), "w").write(gen_src)
     shutil.copy(os.path.join(repo, "Cargo.lock"), os.path.join(crate, "Cargo.lock"))
     cmd = ["cargo", "build", "--offline", "--target-dir", os.path.join(work, "target")]
     if profile == "release":
@@ -105,6 +109,10 @@ def lifecycle_neighbourhood(seed_params):
             q = dict(who=who, action=action, panicking=panicking, clones=clones, other_thread=other, recorded=recorded, unmet=unmet, helper=helper)
             if q not in out:
                 out.append(q)
+            if recorded and not helper:
+                q2 = dict(q, via_original=1)
+                if q2 not in out:
+                    out.append(q2)
     return out
 
 
